@@ -493,6 +493,7 @@ class Yields:
         s.ghost.setdefault("waits", []).append((lineno, waited, type(value).__name__))
         s.ghost["seg_id"] = s.ghost.get("seg_id", 0) + 1
         s.ghost["last_resume"] = dict(s.f)
+        s.ghost["last_resume_thread_state"] = s.heap_arr("thread_state")
         rel = getattr(self.con, "rely", None)
         if rel:
             for nm, cl in rel(st, s):
